@@ -39,6 +39,28 @@
 (*                          shorter compressed; uncompressed length 65534 ..   *)
 (*                          65537 (a TXT record sets it) and about 150 000,    *)
 (*                          compressed below 13 000                            *)
+(*                "foreign" compressed forms OTHER encoders emit (Compress!     *)
+(*                          Recompress under four strategies: pointers to the   *)
+(*                          LATEST earlier occurrence -- an RRset whose owners  *)
+(*                          each point at the previous owner field, a pointer   *)
+(*                          landing on a pointer --, whole names only and in    *)
+(*                          the RDATA of every type, first occurrences in any   *)
+(*                          RDATA, pointers replacing root octets) of runs,     *)
+(*                          of every name-bearing type twice in a row, of the   *)
+(*                          "first" messages: field `hands'; each is accepted   *)
+(*                          by the specification's judge and must be accepted   *)
+(*                          and read as msg by the library                      *)
+(*                "spell"   names whose labels hold a dot, a backslash, a       *)
+(*                          space, a quote, octet 200 (and their look-alikes    *)
+(*                          a.b / xy), each position in one of four SPELLINGS   *)
+(*                          (field sp: <<owner index, style>>; 0 canonical,     *)
+(*                          1 \097 for a, 2 every escape as \DDD -- \046,    *)
+(*                          \092 --, 3 every octet as \DDD)                   *)
+(*                "overlong" names of 254..257, 300 wire octets / 127, 128      *)
+(*                          labels / a 64-octet label whose tail occurs earlier *)
+(*                          in the message, at every kind of position: nowf =   *)
+(*                          the message is NOT well-formed (WFMsg): no packing  *)
+(*                          of it exists, with or without compression           *)
 (* ulen   the length of the message packed without compression (LenMsg)        *)
 EXTENDS Gen_WireRR, Compress
 
@@ -166,6 +188,60 @@ LargeCases(tier) ==
      \cup { <<2, k>> : k \in ks } \cup { <<3, b[1], b[2]>> : b \in bs }
 LargeName == IF CMode # "large" THEN CMode ELSE IF cv[1] = 1 THEN "runs" ELSE IF cv[1] = 2 THEN "nest" ELSE "bulk"
 
+\* Mode "foreign".  cv = <<1, n, pat, ty>> runs | <<2, t, variant>> a name-bearing type twice | <<3, t, j>> first
+FStrats == << FStrategy("latest", FALSE, FALSE, FALSE), FStrategy("latest", TRUE, TRUE, FALSE),
+              FStrategy("first", TRUE, FALSE, FALSE),   FStrategy("latest", FALSE, FALSE, TRUE) >>
+FNames  == << "latest", "latest-whole-anyrdata", "first-anyrdata", "latest-rootptr" >>
+TwiceMsg(t, variant) ==
+  LET nm == IF variant = 2 THEN << L(67) >> \o BAX ELSE BAX
+      r  == RR(Tail(BAX), t, 1, Ttl1h, NameF(t, nm)) IN
+  Msg(H0, << QOf(BAX, t) >>, << A4(BAX, 1), r, r >>, <<>>, <<>>)
+ForeignCases(tier) ==
+  { <<1, n, pat, ty>> : n \in (IF tier = 0 THEN {2, 3, 10} ELSE (2..12) \cup {40}), pat \in 1..4, ty \in 1..3 }
+  \cup { <<2, NameTypes[x], variant>> : x \in 1..Len(NameTypes), variant \in 1..2 }
+  \cup (IF tier = 0 THEN {} ELSE
+        UNION { { <<3, NameTypes[x], NameIdx(NameTypes[x])[y]>> : y \in 1..Len(NameIdx(NameTypes[x])) } : x \in 1..Len(NameTypes) })
+ForeignMsg == IF cv[1] = 1 THEN RunsMsg(cv[2], cv[3], cv[4]) ELSE IF cv[1] = 2 THEN TwiceMsg(cv[2], cv[3]) ELSE FirstMsg(cv[2], cv[3])
+Hands(m) == IF CMode # "foreign" THEN <<>>
+            ELSE LET bu == EncMsg(m) IN [k \in 1..Len(FStrats) |-> [s |-> FNames[k], b |-> Recompress(bu, FStrats[k])]]
+
+\* Mode "spell".  cv = <<i, j, si, sj>>
+SpZ == << L(122) >>
+SpNames == << << <<97, 46, 98>> >>, << L(97), L(98) >>, << <<120, 92, 121>> >>, << <<120, 121>> >>, << <<97, 32, 98>> >>,
+              << <<97, 34, 98>> >>, << <<200, 97>> >>, << <<92>> >>, << <<46>> >>, << L(98) >> >>
+SpName(i) == SpNames[i] \o SpZ
+SpellMsg(i, j) == Msg(H0, << QOf(SpName(i), 1) >>, << RR(SpName(j), 2, 1, Ttl1h, [Ns |-> SpName(i)]) >>, <<>>,
+                      << A4(SpName(i), 1), A4(SpName(j), 2) >>)
+Sp == IF CMode # "spell" THEN <<>> ELSE << <<0, cv[3]>>, <<1, cv[4]>>, <<2, cv[4]>>, <<3, cv[3]>> >>
+
+\* Mode "overlong".  cv = <<shape, pos, first>>
+OvS == << Rep(63, 98), Rep(63, 99), Rep(63, 100) >>                 \* 193 octets on the wire
+OvBase(shape) == IF shape = 7 THEN << L(120) >> ELSE IF shape >= 8 THEN [i \in 1..100 |-> L(97)] ELSE OvS
+OvName(shape) ==
+  CASE shape = 1 -> << Rep(60, 101) >> \o OvS                       \* 254
+    [] shape = 2 -> << Rep(61, 101) >> \o OvS                       \* 255: the longest name there is
+    [] shape = 3 -> << Rep(62, 101) >> \o OvS                       \* 256
+    [] shape = 4 -> << Rep(63, 101) >> \o OvS                       \* 257
+    [] shape = 5 -> << Rep(50, 102), Rep(55, 101) >> \o OvS         \* 300
+    [] shape = 6 -> << Rep(64, 101) >> \o OvS                       \* a 64-octet label, 258
+    [] shape = 7 -> << Rep(64, 101), L(120) >>                      \* a 64-octet label in a short name
+    [] shape = 8 -> [i \in 1..128 |-> L(97)]                        \* 128 labels, 257
+    [] shape = 9 -> [i \in 1..127 |-> L(97)]                        \* 127 labels, 255
+OvValid(shape) == shape \in {1, 2, 9}
+OvMsg(shape, pos, first) ==
+  LET b   == OvBase(shape)  n == OvName(shape)
+      q1  == IF first = 1 THEN b ELSE << L(113) >>
+      pre == IF first = 1 THEN <<>> ELSE << RR(<< L(111) >>, 2, 1, Ttl1h, [Ns |-> b]) >>
+      rec == CASE pos = 2 -> A4(n, 1)
+               [] pos = 3 -> RR(b, 2, 1, Ttl1h, [Ns |-> n])
+               [] pos = 4 -> RR(b, 15, 1, Ttl1h, [Preference |-> 1, Mx |-> n])
+               [] pos = 5 -> RR(b, 5, 1, Ttl1h, [Target |-> n])
+               [] pos = 6 -> RR(b, 33, 1, Ttl1h, [Priority |-> 1, Weight |-> 2, Port |-> 53, Target |-> n])
+               [] OTHER   -> A4(b, 1)
+  IN Msg(H0, IF pos = 1 THEN << QOf(q1, 1), QOf(n, 1) >> ELSE << QOf(q1, 1) >>,
+         pre \o (IF pos = 1 THEN <<>> ELSE << rec >>), <<>>, <<>>)
+NoWF == CMode = "overlong" /\ ~OvValid(cv[1])
+
 CInShard(x) == x % CNShards = CShard
 
 CInit ==
@@ -179,6 +255,12 @@ CInit ==
      \/ CMode = "first" /\ \E x \in 1..Len(NameTypes) : \E y \in 1..Len(NameIdx(NameTypes[x])) :
           cv = <<NameTypes[x], NameIdx(NameTypes[x])[y]>>
      \/ CMode = "pad" /\ \E at \in (IF Tier = 0 THEN 16382..16385 ELSE 16370..16395) : cv = <<at>>
+     \/ CMode = "foreign" /\ \E c \in ForeignCases(Tier) : CInShard(c[1] + 3 * c[2] + 7 * c[3]) /\ cv = c
+     \/ CMode = "spell" /\ \E i \in 1..Len(SpNames), j \in 1..Len(SpNames), si \in 0..3, sj \in 0..3 :
+          CInShard(i + 3 * j + 7 * si + 13 * sj) /\ cv = <<i, j, si, sj>>
+     \/ CMode = "overlong" /\ \E shape \in 1..9, pos \in 1..6, first \in 1..2 :
+          /\ (Tier = 0 /\ shape >= 8) => (pos \in 2..3 /\ first = 1)     \* names of 127 labels cost the specification's own reader seconds each
+          /\ cv = <<shape, pos, first>>
      \/ CMode = "large" /\ \E c \in LargeCases(Tier) : /\ CInShard(c[1] + 3 * c[2] + (IF Len(c) > 2 THEN 7 * c[3] ELSE 0) + (IF Len(c) > 3 THEN 13 * c[4] ELSE 0))
                                                        /\ cv = c
 CNext == UNCHANGED <<v, cv>>
@@ -188,6 +270,9 @@ CCase == CASE CMode = "family" -> FamilyMsg(cv[1], cv[2], cv[3], cv[4], cv[5], c
            [] CMode = "types"  -> TypesMsg2(cv[1], cv[2])
            [] CMode = "first"  -> FirstMsg(cv[1], cv[2])
            [] CMode = "pad"    -> PadMsg2(cv[1])
+           [] CMode = "foreign" -> ForeignMsg
+           [] CMode = "spell"  -> SpellMsg(cv[1], cv[2])
+           [] CMode = "overlong" -> OvMsg(cv[1], cv[2], cv[3])
            [] CMode = "large"  -> (IF cv[1] = 1 THEN RunsMsg(cv[2], cv[3], cv[4]) ELSE IF cv[1] = 2 THEN NestMsg(cv[2]) ELSE BulkMsg(cv[2], cv[3]))
 
 \* which names get the other spelling: none / the last record's owner / the first question
@@ -218,11 +303,25 @@ SpecOK(m) ==
        /\ Len(bh) < Len(bu)
        /\ st = (IF anyPlain THEN "pointer-in-uncompressible-rdata" ELSE "ok")      \* legal on input, never produced
   /\ CMode = "pad" => PlanMsg(m)[3].off = cv[1]
+  /\ CMode = "foreign" =>
+       LET hs == Hands(m) IN
+       /\ \A k \in 1..Len(hs) :
+            LET st == ValidCompressedStageH(hs[k].b, bu) IN
+            /\ st \in {"ok"} \cup (IF FStrats[k].rd THEN {"pointer-in-uncompressible-rdata"} ELSE {})
+                        \cup (IF FStrats[k].root THEN {"longer"} ELSE {})       \* every form is one the reader is obliged to take
+            /\ ~FStrats[k].root => Len(hs[k].b) <= Len(bu)
+       \* non-vacuity: the owners of a run chain pointer to pointer under "latest"
+       /\ (cv[1] = 1 /\ cv[2] >= 3) => PtrOnPtr(WithHints(StreamOf(hs[1].b).parts))
+
+\* the ill-formed messages of mode "overlong": nothing but that they are ill-formed, and why
+SpecNoWF(m) == /\ ~WFMsg(m)
+               /\ \E n \in { OvName(cv[1]) } : ~ValidName(n) /\ ValidName(OvBase(cv[1]))
 
 COut ==
   LET m == CCase IN
-  /\ Assert(SpecOK(m), <<"specification fails on its own vector", CMode, cv>>)
-  /\ Emit([g |-> LargeName, v |-> cv, msg |-> m, ddd |-> Ddd(m), ulen |-> LenMsg(m),
+  /\ Assert(IF NoWF THEN SpecNoWF(m) ELSE SpecOK(m), <<"specification fails on its own vector", CMode, cv>>)
+  /\ Emit([g |-> LargeName, v |-> cv, msg |-> m, ddd |-> Ddd(m), ulen |-> IF NoWF THEN 0 ELSE LenMsg(m),
            hand |-> IF CMode = "types" THEN HandCompressed(m) ELSE <<>>,
-           implen |-> IF CMode = "large" /\ cv[1] = 3 THEN BulkCLen(cv[2], cv[3]) ELSE PackImplMsg(m, TRUE)])
+           hands |-> Hands(m), sp |-> Sp, nowf |-> NoWF,
+           implen |-> IF NoWF THEN 0 ELSE IF CMode = "large" /\ cv[1] = 3 THEN BulkCLen(cv[2], cv[3]) ELSE PackImplMsg(m, TRUE)])
 =============================================================================
